@@ -82,3 +82,38 @@ func c05Rebind(i int64, seed uint64, r *fw.Rec) {
 	r.Held()
 	r.Sample("input-dependent-binding", map[string]any{"prog": prog, "history": hist})
 }
+
+// The clock is one of the sanctioned variations only between evaluations:
+// within one evaluation every $now()/$millis() is the same instant, in whatever
+// scope it is read and however much work lies between two readings.
+func c05Clock(i int64, seed uint64, r *fw.Rec) {
+	rr := prng.New(seed, 0xC05F, uint64(i))
+	work := rr.Range(40000, 120000)
+	prog := fmt.Sprintf(`[($a := $millis(); $a), ($sum([1..%d]); $millis()), function(){$toMillis($now())}(), $map([1, 2], function($v){($sum([1..%d]); $millis())})[1], {"k": ($millis())}.k, [1].($sum([1..%d]); $toMillis($now()))]`, work, work/2, work/2)
+	r.Begin(prog, "")
+	r.Tag("clock-constant-within-an-evaluation")
+	r.Nontrivial(prog)
+	e, co := obs.Compile(prog)
+	if e == nil {
+		r.Violation("harness:clock-program-does-not-compile", co.String(), nil)
+		return
+	}
+	for k := 0; k < 3; k++ {
+		r.Evals(1)
+		o := obs.Eval(e, nil)
+		arr, _ := obs.Normalize(o.Val, nil).([]interface{})
+		if o.Kind != "value" || len(arr) != 6 {
+			r.Violation("clock-program-failed", "got "+o.String(), nil)
+			return
+		}
+		first, _ := arr[0].(float64)
+		for j, x := range arr {
+			if f, ok := x.(float64); !ok || f != first {
+				r.Violation("clock-not-constant-within-an-evaluation", fmt.Sprintf("evaluation #%d: reading %d is %v, reading 0 is %v", k+1, j, x, arr[0]), nil)
+				return
+			}
+		}
+	}
+	r.Outcome("compared")
+	r.Held()
+}
